@@ -26,6 +26,7 @@ type c20Leaf struct {
 	Path  string
 	Type  string
 	Bytes string
+	Set   bool // some container above the leaf is a set
 }
 
 func (l c20Leaf) String() string { return fmt.Sprintf("%s:%s=%x", l.Path, l.Type, l.Bytes) }
@@ -44,7 +45,7 @@ func c20Leaves(path string, t zed.Type, b zcode.Bytes, out *[]c20Leaf) {
 		it := b.Iter()
 		for _, f := range t.Fields {
 			if it.Done() {
-				*out = append(*out, c20Leaf{path, "malformed-record", string(b)})
+				*out = append(*out, c20Leaf{Path: path, Type: "malformed-record", Bytes: string(b)})
 				return
 			}
 			c20Leaves(path+"."+fmt.Sprintf("%q", f.Name), f.Type, it.Next(), out)
@@ -54,6 +55,16 @@ func c20Leaves(path string, t zed.Type, b zcode.Bytes, out *[]c20Leaf) {
 			c20Leaves(path+"[]", t.Type, it.Next(), out)
 		}
 	case *zed.TypeSet:
+		// below a set, elements that become equal once widened to the fused
+		// element type are one element (a set is a set), so leaves are compared
+		// by presence there, not by multiplicity (c20LeafDiff); the path
+		// component is the array's, because fuse may turn a set into an array
+		n0 := len(*out)
+		defer func() {
+			for i := n0; i < len(*out); i++ {
+				(*out)[i].Set = true
+			}
+		}()
 		for it := b.Iter(); !it.Done(); {
 			c20Leaves(path+"[]", t.Type, it.Next(), out)
 		}
@@ -61,7 +72,7 @@ func c20Leaves(path string, t zed.Type, b zcode.Bytes, out *[]c20Leaf) {
 		for it := b.Iter(); !it.Done(); {
 			c20Leaves(path+"{key}", t.KeyType, it.Next(), out)
 			if it.Done() {
-				*out = append(*out, c20Leaf{path, "malformed-map", string(b)})
+				*out = append(*out, c20Leaf{Path: path, Type: "malformed-map", Bytes: string(b)})
 				return
 			}
 			c20Leaves(path+"{val}", t.ValType, it.Next(), out)
@@ -70,7 +81,7 @@ func c20Leaves(path string, t zed.Type, b zcode.Bytes, out *[]c20Leaf) {
 		it := b.Iter()
 		tag := int(zed.DecodeInt(it.Next()))
 		if tag < 0 || tag >= len(t.Types) || it.Done() {
-			*out = append(*out, c20Leaf{path, "malformed-union", string(b)})
+			*out = append(*out, c20Leaf{Path: path, Type: "malformed-union", Bytes: string(b)})
 			return
 		}
 		c20Leaves(path, t.Types[tag], it.Next(), out)
@@ -80,11 +91,11 @@ func c20Leaves(path string, t zed.Type, b zcode.Bytes, out *[]c20Leaf) {
 		if i >= 0 && i < len(t.Symbols) {
 			sym = t.Symbols[i]
 		}
-		*out = append(*out, c20Leaf{path, "enum", sym})
+		*out = append(*out, c20Leaf{Path: path, Type: "enum", Bytes: sym})
 	case *zed.TypeError:
 		c20Leaves(path+"!error", t.Type, b, out)
 	default:
-		*out = append(*out, c20Leaf{path, fmt.Sprintf("p%d", t.ID()), string(b)})
+		*out = append(*out, c20Leaf{Path: path, Type: fmt.Sprintf("p%d", t.ID()), Bytes: string(b)})
 	}
 }
 
@@ -109,14 +120,34 @@ func c20LeavesOf(v zed.Value) []c20Leaf {
 
 func c20LeafDiff(in, out []c20Leaf) string {
 	m := map[c20Leaf]int{}
+	nin, nout := map[c20Leaf]int{}, map[c20Leaf]int{}
+	underSet := map[c20Leaf]bool{}
 	for _, l := range in {
+		set := l.Set
+		l.Set = false
+		underSet[l] = underSet[l] || set
 		m[l]++
+		nin[l]++
 	}
 	for _, l := range out {
+		set := l.Set
+		l.Set = false
+		underSet[l] = underSet[l] || set
 		m[l]--
+		nout[l]++
 	}
 	var lost, extra []string
 	for l, n := range m {
+		if underSet[l] || strings.Contains(l.Path, "{key}") || strings.Contains(l.Path, "{val}") {
+			// below a set or a map: presence, not multiplicity (elements or keys
+			// that coincide after widening collapse, as the data model demands)
+			if nin[l] > 0 && nout[l] == 0 {
+				lost = append(lost, l.String())
+			} else if nout[l] > 0 && nin[l] == 0 {
+				extra = append(extra, l.String())
+			}
+			continue
+		}
 		if n > 0 {
 			lost = append(lost, l.String())
 		} else if n < 0 {
@@ -497,7 +528,7 @@ func c20ValGen(r *rt.Rand) *gen.ValGen {
 }
 
 func runC20(c *rt.Ctx) {
-	c.Note("rule", "case = one input sequence run through `fuse` at the default fuse.MemMaxBytes, through `summarize fuse(this)`, and through `fuse` again with MemMaxBytes=1 and a mid-stream limit (spills counted at the fuse.spill hook); oracle: |out|=|in|, every output has the type fuse(this) reports, that type is well-formed, per position the multiset of (path, primitive type, bytes) over non-null leaves is unchanged (named types and union tags transparent, container elements as a multiset), spilled output identical. tuple cases enumerate ordered pairs / triples of a 27-type alphabet with 1–2 generated values per type, random cases draw 1–6 generated types of depth ≤3; shapes cases spread 3–6 record shapes over the elements of arrays/sets (top level, under a field, nested) of 2–5 values; non-trivial = input with ≥2 distinct record types sharing a field name at different types; distinct by the sorted set of input type strings")
+	c.Note("rule", "case = one input sequence run through `fuse` at the default fuse.MemMaxBytes, through `summarize fuse(this)`, and through `fuse` again with MemMaxBytes=1 and a mid-stream limit (spills counted at the fuse.spill hook); oracle: |out|=|in|, every output has the type fuse(this) reports, that type is well-formed, per position the multiset of (path, primitive type, bytes) over non-null leaves is unchanged (named types and union tags transparent, array elements as a multiset, set elements and map entries by presence), spilled output identical. tuple cases enumerate ordered pairs / triples of a 27-type alphabet with 1–2 generated values per type, random cases draw 1–6 generated types of depth ≤3; shapes cases spread 3–6 record shapes over the elements of arrays/sets (top level, under a field, nested) of 2–5 values; non-trivial = input with ≥2 distinct record types sharing a field name at different types; distinct by the sorted set of input type strings")
 	c.Note("assumptions", strings.Join([]string{
 		"top-level error values are not generated (like every operator, fuse passes them through unshaped — language design); error-typed fields inside records are",
 		"the fused type must not contain a union with duplicate members (the data model defines unions over two or more unique types), checked on the type fuse(this) reports",
